@@ -149,6 +149,14 @@ def check(tree, rep, tier='quick', seed=0):
                     desc = r.attrs.get('_description')
                     rep.ob('R17.8', f'{ikey}/i:{nm}/description-is-text', isinstance(desc, str) and desc.strip() != '',
                            f'input {nm!r} of {fr.name}: the help text is {desc!r}', r.where)
+                    # what the template and the prompt print for this input exists: the class (or a class it extends,
+                    # short of the raising stubs of Input itself) implements format_suggestion() and value()
+                    for meth in ('format_suggestion', 'value'):
+                        mc, mnode = r.cls.find_method(meth)
+                        stub = mnode is None or (mc.name == 'Input' and any(isinstance(x, ast.Raise) for x in ast.walk(mnode)))
+                        rep.ob('R17.8', f'{ikey}/i:{nm}/{meth}-implemented', not stub,
+                               f'input {nm!r} of {fr.name} is a {r.cls.name}, which inherits the raising stub Input.{meth}(): list-form-inputs {fr.name} and the prompt for this input '
+                               'end in NotImplementedError instead of printing the template / the question', r.where)
                     if 'allow_empty' in r.attrs:
                         ae = r.attrs.get('allow_empty')
                         rep.ob('R17.8', f'{ikey}/i:{nm}/allow_empty-is-a-flag', isinstance(ae, bool),
